@@ -30,6 +30,17 @@ def main():
         sel = sel[1:]
         os.environ['OXA_CACHE'] = os.path.join(VERIF, '.cache', 'shard%d' % shard[0])
     cases = [c for c in CASES if not sel or any(s in c['name'] for s in sel)]
+    only = [x for x in os.environ.get('OXA_ONLY_PROPS', '').split(',') if x]
+    if only:
+        # a partial re-run after a change to a few rule modules: the listed checks only, on the cases that name them
+        # (a must-catch case is kept only if every rule it expects belongs to a listed check)
+        kept = []
+        for c in cases:
+            props = [q for q in c['props'] if q in only]
+            if not props or any(e.split('.')[0] not in only for e in c['expect']):
+                continue
+            kept.append(dict(c, props=props))
+        cases = kept
     if shard:
         cases = cases[shard[0]::shard[1]]
     scratch = tempfile.mkdtemp(prefix='oxa-selftest-', dir='/tmp')
